@@ -13,6 +13,7 @@ package main
 //   recvtx T                      deliver unconfirmed transaction T
 //   synced | bal W C | utxos W | abal W C | addrs W | shist W 0|1 | bhist W 0|1 | wallets
 //   pend | sbu W | hsbu W | shistp W | bhistp W | pins | pcred | pgame     pending-set observations (C09)
+//   glog                          raw dump of the mined deposit-history bucket (C10)
 //   restart                       reopen the wallet database with a fresh WalletManager
 
 import (
@@ -108,6 +109,8 @@ func ledOp(e *WEnv, a []string) string {
 		return e.PendCred()
 	case a[0] == "pgame" && len(a) == 1: // raw dump of the unmined game-history bucket
 		return e.PendGame()
+	case a[0] == "glog" && len(a) == 1: // raw dump of the mined deposit-history bucket (C10)
+		return e.GameLog()
 	case a[0] == "params" && len(a) == 3:
 		cb, err1 := strconv.ParseUint(a[1], 10, 64)
 		mf, err2 := strconv.ParseUint(a[2], 10, 64)
